@@ -1,6 +1,7 @@
 \* witness
 CONSTANTS
   Kinds <- MC_KindsQ
+  BigN = 60
   MaxN = 2
   Filters = {"none", "flate"}
   HdrSeps = {"sp", "nl"}
